@@ -1086,7 +1086,6 @@ func keysOf(m map[string]bool) []string {
 	return ks
 }
 
-
 // constStateSlice: v is a slice literal / variadic argument list made of handshake-state constants.
 func (f *fsm) constStateSlice(v ssa.Value) ([]int8, bool) {
 	sl, ok := v.(*ssa.Slice)
